@@ -37,6 +37,15 @@ CHECKS['C04'] = dict(
     note='Trusted as for C01; start rule = rule named start (any capitalisation).',
     design='7 (C04)')
 
+CHECKS['C07'] = dict(
+    technique='Lean 4 model of the _run trampoline (stack + memo small-step machine) with invariant and simulation theorems + step-trace correspondence of the real _run driven by synthetic generators + evaluation-count checks on exponential grammar families',
+    text=('Proof: C07_memo_transparent (machine = direct recursive evaluation of the bodies, for all body systems), C07_started_only_on_miss and C07_hit_returns_stored (no hypothesis), '
+          'C07_at_most_once / C07_evaluation_bound / C07_memo_write_once (under no re-entry of a key that is on the stack, by an inductive invariant over all reachable states). '
+          'Tie: the real _run of a generated module is driven with generator functions built from random finite resumption trees and its event trace (begin/resume/return per key) is compared '
+          'token for token with the Lean machine; end to end, rule bodies log through inline Python and every (rule, position) must be logged at most once, also through rule parameters.'),
+    note='Trusted: Lean kernel; generator send/yield semantics of CPython are modelled by Prog/Gtor, tied by the trace comparison.',
+    design='7 (C07)')
+
 NOT_YET = {
 }
 
